@@ -36,6 +36,8 @@ QUICK = [
     _c('coarse_transport_mask_second_half', 'coarse', dict(T=4, kind='transport', eff=0.5), ('mask', [0, 1, 0, 0])),
     _c('orderbook_mask', 'orderbook', dict(T=3), ('mask', [0, 0, 1])),
     _c('periodic_contract_mask', 'periodic', dict(T=4, kind='contract'), ('mask', [0, 0, 1, 0])),
+    _c('scaled_mask_first_step', 'scaled', dict(T=3, base='storage'), ('mask', [1, 0, 0])),
+    _c('scaled_mask_later_step', 'scaled', dict(T=3, base='transport'), ('mask', [0, 0, 1])),
 ]
 THOROUGH = QUICK + [
     _c('contract_storage_date_late', 'contract_storage', dict(T=4, wacc=True), ('date', 2, 59)),
